@@ -361,6 +361,29 @@ func c09Run(c *ctx, s c09Scenario, how string) {
 			fail("result-depends-on-initial-order", fmt.Sprintf("%q vs %q", idsOf(g1), idsOf(g2)))
 		}
 	}
+	// the returned collection is the caller's: what is done to one result never shows in a later one
+	if key == "" && len(s.items) > 0 {
+		if p, pv := guard(func() {
+			for _, sz := range []uint{0, 5} {
+				p1 := jsonapi.Range(s.build(), []string{"no-such-id"}, flt, s.rules, sz, 0)
+				if p1 == nil || p1.Len() != 0 {
+					return
+				}
+				p1.Add(s.build().At(0))
+				if p2 := jsonapi.Range(s.build(), []string{"no-such-id"}, flt, s.rules, sz, 0); p2 == nil || p2.Len() != 0 {
+					fail("page-not-fresh", fmt.Sprintf("an empty page (size %d) that the caller added a resource to came back as the next empty result", sz))
+				}
+			}
+			full1 := jsonapi.Range(s.build(), nil, nil, []string{"id"}, 100, 0)
+			n1 := full1.Len()
+			full1.Add(s.build().At(0))
+			if full2 := jsonapi.Range(s.build(), nil, nil, []string{"id"}, 100, 0); full2.Len() != n1 {
+				fail("page-not-fresh", "a page the caller added a resource to changed the next result")
+			}
+		}); p {
+			fail("range-panics", fmt.Sprint(pv))
+		}
+	}
 	if key != "" && first != nil {
 		first.FailKey, first.PropFail = key, key+": "+detail
 	}
